@@ -9,10 +9,10 @@
   What is proved here for *all* coordinates and record lengths:
     overlap / containment / distance (line and ring, single- and multi-part, incl. origin-spanning)
     connect on a linear record (exact hull, argument order, idempotence, strand rule)
-    connect on a ring for ANY non-empty list of single-part locations and origin-spanning spans
-      (`RingIn`): never fails, covers every input, well-formed span, never longer than the line hull,
+    connect on a ring for ANY non-empty list of non-bridging locations (single parts, genes with introns)
+      and origin-spanning spans (`RingIn`): never fails, covers every input, well-formed span, never longer than the line hull,
       inside every covering span shorter than half the record (hence the shortest covering arc whenever
-      one shorter than half exists), independent of the argument order, idempotent — via the closed form
+      one shorter than half exists; single parts and origin-spanning spans), independent of the argument order, idempotent — via the closed form
       `connR` of Proofs/LocConnectRing{N,In,Cover,Hull,Short,Perm}.lean; the two-input theorem
       `connect_ring_two` (explicit gap formula) is kept
     offset of a single-part location and of an origin-spanning span on a ring (rotation of the same bases)
@@ -22,8 +22,8 @@
       return three overlapping parts: `extend_ring_area_three_parts_start/_end`, replayed on the real code)
     the feature ordering is a strict weak order
   Carried by the exhaustive small-scope correspondence + executable set-of-bases spec only
-  (see DESIGN.md): connect on a ring for multi-exon (non-bridging, ≥ 2 parts) or ≥ 3-part origin-bridging
-  inputs; the identification of "shortest covering span" with the executable `shortestArc L (canon …)`
+  (see DESIGN.md): connect on a ring for origin-bridging inputs other than the two-part span (origin-bridging
+  genes with introns); the identification of "shortest covering span" with the executable `shortestArc L (canon …)`
   formula used by the driver; extension of multi-exon locations; offset of multi-exon gene locations.
 -/
 import ASV.Proofs.LocOrder
@@ -145,9 +145,10 @@ theorem connect_ring_two (a b : Part) (L : Int) (ha : a.OK L) (hb : b.OK L) (hL 
         r.len = L - max (lineGapSigned a b) (originGap a b L)) :=
   connect_two_ring a b L ha hb hL
 
-/-- `RingIn L l`: `l` is a single non-empty part inside `[0, L]` (a simple location or a one-part
-    compound, any strand) or an origin-spanning span `[x, L) + [0, y)` with `0 < y ≤ x < L`
-    (`areaTwo x y L s` for any single strand `s`, or the reverse-strand part order `areaTwoRev`).
+/-- `RingIn L l`: `l` does not bridge the origin and all its parts are non-empty and inside `[0, L]`
+    (a single part of any strand as a simple location or a one-part compound; a gene with introns),
+    or `l` is an origin-spanning span `[x, L) + [0, y)` with `0 < y ≤ x < L` (`areaTwo x y L s` for
+    any single strand `s`, or the reverse-strand part order `areaTwoRev`).
 
     Connecting ANY non-empty list of such locations on a ring of length `L > 0` succeeds (no
     ValueError, no failed assertion, no unbounded recursion), the result covers every base of every
@@ -180,9 +181,10 @@ theorem connect_ring_le_hull (ls : List Loc) (L : Int) (hne : ls ≠ []) (hL : 0
 /-- … and it is the shortest covering arc whenever one shorter than half the record exists: the
     result has no base outside ANY well-formed span `c` (one part, or two parts meeting at the
     origin) that covers all inputs and is shorter than half the record, and is not longer than `c`.
-    (`RingInStrict` excludes only the location `[x, L)(−) + [0, y)(−)`, which in Biopython's part
-    order is an ordinary two-exon reverse-strand gene, not an origin-spanning one: it is reduced to
-    its line hull `[0, L)` — see `connect_ring_two_exon_reverse` below.) -/
+    (`RingInStrict`: single parts and origin-spanning spans.  A location with several parts that does
+    not bridge the origin is first reduced to its line hull, which can contain more than the arc:
+    e.g. `[x, L)(−) + [0, y)(−)`, in Biopython's part order an ordinary two-exon reverse-strand gene,
+    becomes `[0, L)` — see `connect_ring_two_exon_reverse` below.) -/
 theorem connect_ring_shortest (ls : List Loc) (L : Int) (hne : ls ≠ []) (hL : 0 < L)
     (hin : ∀ l ∈ ls, RingInStrict L l) (c : Loc) (hwf : areaWF L L c = true) (hlen : 2 * c.len < L)
     (hcov : ∀ l ∈ ls, ∀ i, l.mem i = true → c.mem i = true) :
@@ -361,6 +363,13 @@ example : areaWF 100 100 (.compound [⟨95, 100, .fwd⟩, ⟨0, 30, .fwd⟩]) = 
     2 * (Loc.compound [⟨95, 100, .fwd⟩, ⟨0, 30, .fwd⟩]).len < 100 ∧
     connect [areaTwo 95 10 100 .fwd, .simple ⟨20, 30, .fwd⟩] (some 100) = .ok (.compound [⟨95, 100, .fwd⟩, ⟨0, 30, .fwd⟩]) :=
   ⟨by rfl, by decide, by rfl⟩
+/-- a gene with an intron (does not bridge the origin) among the inputs -/
+example : RingIn 100 (.compound [⟨2, 8, .fwd⟩, ⟨12, 18, .fwd⟩]) :=
+  Or.inl ⟨by simp [Loc.parts], by decide, by
+    intro p hp; simp only [Loc.parts, List.mem_cons, List.mem_nil_iff, or_false] at hp
+    rcases hp with rfl | rfl <;> decide⟩
+example : connect [.compound [⟨2, 8, .fwd⟩, ⟨12, 18, .fwd⟩], .simple ⟨80, 90, .rev⟩, areaTwo 95 1 100 .fwd] (some 100)
+    = .ok (.compound [⟨80, 100, .fwd⟩, ⟨0, 18, .fwd⟩]) := by rfl
 /-- extension of an origin-spanning span: both ends move, the result stays a two-part span -/
 example : extendLocation (areaTwo 90 10 100 .fwd) 15 100 true = .ok (.compound [⟨75, 100, .fwd⟩, ⟨0, 25, .fwd⟩]) := by rfl
 /-- … and the whole-record branch -/
